@@ -18,10 +18,11 @@ def run(ctx):
     ctx.suites_run.append("S-rel")
     rng = ctx.rng
     n = 4 if not ctx.thorough else 16
-    ctx.rule("all optimizers that do not read Agent.fitness / Task.minmax (table obligation T12) × objectives {sphere, linear, rastrigin, neg} × bounds regimes × configs (1..4 cycles) × seeds; in a third of the pairs the maximising instance has just solved a task of the opposite direction: "
+    ctx.rule("all optimizers that do not read Agent.fitness / Task.minmax (table obligation T12) × objectives {sphere, linear, rastrigin, neg} × bounds regimes × configs (1..4 cycles; plus every validator-accepted candidate value of every algorithm parameter once) × seeds; in a third of the pairs the maximising instance has just solved a task of the opposite direction: "
              "run(max, f) vs run(min, -f): same positions generation by generation, costs exact negatives, bit for bit; a case = one pair of runs; non-trivial = ≥ 2 generations")
     names = [x for x in optimizers.names() if x not in EXCLUDED]
     js = jobs.make_jobs(rng, names, ["cont-sym", "cont", "cont-zero", "cont-onesided", "mixed", "disc"], n, modes=("serial",), minmaxes=("max",), max_cycles_choices=(1, 2, 3, 4), trace_events=False)
+    js += jobs.param_sweep_jobs(rng, names, kinds=("cont-sym", "cont"), max_cycles=2, objectives=("sphere", "rastrigin", "linear"), minmaxes=("max",))
     for j in rng.sample(js, len(js) // 3):
         j["reuse"] = True                      # the maximising instance has already solved a task of the opposite direction
         j["kind"] = j["kind"] + "+reused"
